@@ -279,6 +279,11 @@ def _equality_connect(is_sparse: bool, newton: bool):
     Jqvel = wp.vec3f(0.0, 0.0, 0.0)
     Jdotv = wp.vec3f(0.0, 0.0, 0.0)
 
+    # the constraint weight belongs to the equality's own bodies: take it before the sparse branch replaces
+    # body1/body2 by their weld roots
+    body_invweight0_id = worldid % body_invweight0.shape[0]
+    invweight = body_invweight0[body_invweight0_id, body1][0] + body_invweight0[body_invweight0_id, body2][0]
+
     if wp.static(is_sparse):
       # TODO(team): pre-compute number of non-zeros
       body1 = body_weldid[body1]
@@ -472,8 +477,6 @@ def _equality_connect(is_sparse: bool, newton: bool):
         Jqvel += j1mj2 * qvel
         Jdotv += j1mj2_dot * qvel
 
-    body_invweight0_id = worldid % body_invweight0.shape[0]
-    invweight = body_invweight0[body_invweight0_id, body1][0] + body_invweight0[body_invweight0_id, body2][0]
     pos_imp = wp.length(pos)
 
     solref = eq_solref[worldid % eq_solref.shape[0], eqid]
@@ -1138,6 +1141,12 @@ def _equality_weld(is_sparse: bool, newton: bool):
     Jdotv_p = wp.vec3f(0.0, 0.0, 0.0)
     Jdotv_r0 = wp.vec3f(0.0, 0.0, 0.0)
 
+    # the constraint weights belong to the equality's own bodies: take them before the sparse branch replaces
+    # body1/body2 by their weld roots
+    body_invweight0_id = worldid % body_invweight0.shape[0]
+    invweight_t = body_invweight0[body_invweight0_id, body1][0] + body_invweight0[body_invweight0_id, body2][0]
+    invweight_r = body_invweight0[body_invweight0_id, body1][1] + body_invweight0[body_invweight0_id, body2][1]
+
     if wp.static(is_sparse):
       # TODO(team): pre-compute number of non-zeros
       body1 = body_weldid[body1]
@@ -1371,8 +1380,6 @@ def _equality_weld(is_sparse: bool, newton: bool):
     crotq = math.mul_quat(quat1, quat)  # copy axis components
     crot = wp.vec3(crotq[1], crotq[2], crotq[3]) * torquescale
 
-    body_invweight0_id = worldid % body_invweight0.shape[0]
-    invweight_t = body_invweight0[body_invweight0_id, body1][0] + body_invweight0[body_invweight0_id, body2][0]
 
     pos_imp = wp.sqrt(wp.length_sq(cpos) + wp.length_sq(crot))
 
@@ -1425,7 +1432,6 @@ def _equality_weld(is_sparse: bool, newton: bool):
 
       efc_aref_out[worldid, efcid + i] -= Jdotv_p[i]
 
-    invweight_r = body_invweight0[body_invweight0_id, body1][1] + body_invweight0[body_invweight0_id, body2][1]
 
     for i in range(3):
       _efc_row(
